@@ -29,9 +29,9 @@ var dbs = []int{0, 1, 3, 12}
 
 func TestMain(m *testing.M) {
 	rec = evidence.New("C02", "fault_enumeration",
-		"rapid-generated write workloads (3–14 operations) against a standalone server with the append-only log enabled: write commands of all five families (all option forms, multi-key writes, failing writes, FLUSHDB/FLUSHALL, absolute and relative expiries), issued through one TCP connection and through the embedded API, in databases {0,1,3,12} (SELECT / SelectDB), sync policy ∈ {always, no} (+ everysec in the thorough tier). "+
+		"rapid-generated write workloads (3–14 operations) against a standalone server with the append-only log enabled: write commands of all five families (all option forms, multi-key writes, failing writes, FLUSHDB/FLUSHALL, absolute and relative expiries), with a REWRITEAOF at a drawn position in some workloads, issued through one TCP connection and through the embedded API, in databases {0,1,3,12} (SELECT / SelectDB), sync policy ∈ {always, no} (+ everysec in the thorough tier). "+
 			"After every acknowledged command the digest D_i of all databases is recorded and the data directory is imaged. Faults enumerated per workload: (1) process crash at every command boundary (image i must restore to exactly D_i); (2) process crash at every failpoint (hook H4) inside the logging of the last command — before/after the SELECT marker, before/after the record, before/after fsync — (restore ∈ {D_{n-1}, D_n}); "+
-			"(3) a torn final record: the log cut at every byte offset inside the bytes written for the last command (restore = D_{n-1}); (4) power loss under policy always: the log cut back to its length at the last fsync (restore = D_n); (5) clean shutdown and restart (restore = D_n); (6) second generation: after recovering from a torn record more writes are issued, the server is shut down and restarted again (all of them must be there). "+
+			"(3) a torn final record: the log cut at every byte offset inside the bytes written for the last command (restore = D_{n-1}); (4) power loss under policy always: the log cut back to its length at the last fsync (restore = D_n); under everysec / no: the log cut at 24 (quick) / 120 (thorough) offsets spread over its whole length (restore = D_j for some j); (5) clean shutdown and restart (restore = D_n); (6) second generation: after recovering from a torn record more writes are issued, the server is shut down and restarted again (all of them must be there). "+
 			"The virtual clock is advanced between generations in some cases. A case is one workload with all its faults; non-trivial = it logs ≥ 3 writes and contains a crash image or a second generation; distinct = FNV-64 of the workload.",
 		"a process crash is modelled by copying the data directory at the crash point (what the kernel holds when the process dies); power loss is modelled at file-length granularity (each file cut back to its last fsync), not at block or directory-entry granularity",
 		"digest = TYPE, full read and PEXPIRETIME of keys {a,b,c} in databases {0,1,3,12} through the embedded API")
@@ -341,6 +341,33 @@ func runCase(t *rapid.T, replay *workload) {
 			_ = os.Truncate(logPath(dir), syncedLen)
 			check(fmt.Sprintf("power loss under 'always' (log cut back to its last fsync, %d of %d bytes)", syncedLen, finalLen), dir, nowMs, ncmd)
 			rec.Add("crash_points", 1)
+		}
+	}
+	// (4b) power loss under 'everysec' / 'no': what was written after the last fsync may be gone from any byte
+	// on, so the log is cut at offsets spread over its whole length; whatever is left must restore to the
+	// dataset after some prefix of the commands (any prefix: nothing is promised to be durable yet)
+	if w.Sync != "always" && finalLen > 0 {
+		all := make([]int, len(c.D))
+		for i := range all {
+			all[i] = i
+		}
+		ncuts := int64(24)
+		if evidence.Thorough() {
+			ncuts = 120
+		}
+		step := max(finalLen/ncuts, 1)
+		for cut := int64(0); cut < finalLen; cut += step {
+			dir := filepath.Join(root, "powerloss")
+			_ = os.RemoveAll(dir)
+			if err := sut.CopyDir(dataDir, dir); err != nil {
+				t.Fatalf("HARNESS-ERROR: %v", err)
+			}
+			if err := os.Truncate(logPath(dir), cut); err != nil {
+				t.Fatalf("HARNESS-ERROR: %v", err)
+			}
+			check(fmt.Sprintf("power loss under '%s' (log cut at byte %d of %d)", w.Sync, cut, finalLen), dir, nowMs, all...)
+			rec.Add("crash_points", 1)
+			rec.Add("power_loss_cuts", 1)
 		}
 	}
 	// (6) second generation on the recovered (torn, if any) directory
